@@ -4,3 +4,4 @@ INVARIANT LabelsFromBasis
 INVARIANT EmitPosInRange
 INVARIANT EmitTree
 CHECK_DEADLOCK FALSE
+INVARIANT LinImpliesAtomLin
